@@ -48,13 +48,13 @@ Fixpoint mrun (iso : bool) (nres : N) (pool : list rule) (m : mgr) (ops : list m
   | x :: tl =>
       match x with
       | CLoadAll ixs => let rs := pick pool ixs in let '(m', r) := mstep iso m (MLoadAll rs) in
-                        [if iso then 9%Z else if dup_sensitive m rs then (-5)%Z else enc_ret r] :: mrun iso nres pool m' tl
+                        [if iso then 9%Z else enc_ret r] :: mrun iso nres pool m' tl
       | CLoadRes res ixs => let rs := pick pool ixs in let '(m', r) := mstep iso m (MLoadRes res rs) in
-                            [if dup_sensitive m rs then (-5)%Z else enc_ret r] :: mrun iso nres pool m' tl
+                            [enc_ret r] :: mrun iso nres pool m' tl
       | CAppend ix => let rs := pick pool [ix] in
                       match rs with
                       | [r0] => let '(m', r) := mstep iso m (MAppend r0) in
-                                [if dup_sensitive m rs then (-5)%Z else enc_ret r] :: mrun iso nres pool m' tl
+                                [enc_ret r] :: mrun iso nres pool m' tl
                       | _ => [[(-6)%Z]]
                       end
       | CClear => let '(m', r) := mstep iso m MClear in [enc_ret r] :: mrun iso nres pool m' tl
@@ -91,11 +91,8 @@ Definition offered (pool : list rule) (x : mcmd) : list rule :=
   | CAppend ix => pick pool [ix]
   | _ => []
   end.
-(** a call is tainted when one of its rules is equal to, but identified differently from, a rule
-    of this call or of any earlier call of the case.  The rule sets hash the id and compare
-    without it, so whether two such rules count as one element depends on the hash layout of
-    the run; return values of tainted calls are not asserted (rule sets are compared under rule
-    equality and stay asserted). *)
+(** (kept for the record) a call involves an equal-but-differently-identified rule.  Before the fix of
+    the rule hashes such calls had run-dependent return values and were not asserted; they are now. *)
 Definition tainted (seen rs : list rule) : bool :=
   existsb (fun a => existsb (fun b => rule_eqb a b && negb (r_id a =? r_id b)) (rs ++ seen)) rs.
 
@@ -106,7 +103,7 @@ Fixpoint agree_lists_from (seen : list rule) (pool : list rule) (ops : list mcmd
       (match x with
        | CGetAll | CGetRes _ | CEnforced _ =>
            match ids_to_classes pool ob with Some cl => zlist_eqb mo cl | None => false end
-       | _ => match mo with [(-5)%Z] => true | _ => tainted seen (offered pool x) || zlist_eqb mo ob end
+       | _ => zlist_eqb mo ob
        end) && agree_lists_from (offered pool x ++ seen) pool ops' model' obs'
   | _, _, _ => false
   end.
